@@ -574,10 +574,20 @@ func (fr *Frame) havocKeep(h *Heap, set map[string]bool, li *loopInfo) *Heap {
 }
 
 func (fr *Frame) keepLocals(h *Heap, li *loopInfo) *Heap {
-	if h.kind != hHavocSet || h.keep != nil || h.keepE != nil {
+	if h.kind != hHavocSet || h.keep != nil || h.keepE != nil || h.keepH != nil {
 		return h
 	}
 	for f := fr; f != nil; f = f.parent {
+		for _, al := range f.stackAllocs() {
+			v, ok := f.vals[al]
+			if !ok || len(v.L) == 0 {
+				continue
+			}
+			if f == fr && li != nil && touchedIn(al, li) {
+				continue
+			}
+			h.keepH = append(h.keepH, v.L[0])
+		}
 		for i := range f.fn.FreeVars {
 			if i < len(f.freeVars) && len(f.freeVars[i].L) > 0 && finalCapture(f.fn, i) {
 				h.keepE = append(h.keepE, f.freeVars[i].L[0])
@@ -610,6 +620,61 @@ func (fr *Frame) keepLocals(h *Heap, li *loopInfo) *Heap {
 		}
 	}
 	return h
+}
+
+var stackAllocMemo = map[*ssa.Function][]*ssa.Alloc{}
+
+// stackAllocs: locals that go/ssa's escape analysis keeps on the stack (Alloc with Heap == false):
+// their address never leaves the function, so only this function's own instructions write them.
+func (fr *Frame) stackAllocs() []*ssa.Alloc {
+	if r, ok := stackAllocMemo[fr.fn]; ok {
+		return r
+	}
+	var out []*ssa.Alloc
+	for _, b := range fr.fn.Blocks {
+		for _, in := range b.Instrs {
+			if al, ok := in.(*ssa.Alloc); ok && !al.Heap {
+				out = append(out, al)
+			}
+		}
+	}
+	stackAllocMemo[fr.fn] = out
+	return out
+}
+
+// touchedIn: some instruction of the loop refers to the alloc (directly or through a field /
+// element address) other than by loading from it.
+func touchedIn(al *ssa.Alloc, li *loopInfo) bool {
+	if li.blocks[al.Block()] {
+		return true
+	}
+	var visit func(v ssa.Value, depth int) bool
+	visit = func(v ssa.Value, depth int) bool {
+		if v.Referrers() == nil || depth > 4 {
+			return depth > 4
+		}
+		for _, ref := range *v.Referrers() {
+			switch r := ref.(type) {
+			case *ssa.DebugRef:
+			case *ssa.UnOp:
+				// load
+			case *ssa.FieldAddr:
+				if visit(r, depth+1) {
+					return true
+				}
+			case *ssa.IndexAddr:
+				if visit(r, depth+1) {
+					return true
+				}
+			default:
+				if li.blocks[ref.Block()] {
+					return true
+				}
+			}
+		}
+		return false
+	}
+	return visit(al, 0)
 }
 
 var capturedAllocMemo = map[*ssa.Function][]*ssa.Alloc{}
